@@ -1,6 +1,7 @@
 (* C14  Type-source preference settles only real conflicts; warnings never alter output. *)
 From Coq Require Import List String Ascii ZArith Bool Permutation Sorting.Sorted. Import ListNotations.
 From SV Require Import Lib.Str Model.Types Model.Api Model.FrontSmall Model.View Model.Front Proofs.FrontSmallProofs Proofs.WalkProofs.
+From SV Require Import Model.Layout Model.Run Proofs.RunProofs.
 
 (* hint under CODE, docstring type under DOCSTRING, the only available one otherwise *)
 Theorem C14_param_choice : forall pref_doc warn p,
@@ -41,6 +42,10 @@ Proof. exact result_warn_always_refuted. Qed.
    aborts.  Only the log differs. *)
 Theorem C14_front_warn_pure : forall v w1 w2, output_of (front (with_warn v w1)) = output_of (front (with_warn v w2)).
 Proof. exact front_warn_pure. Qed.
+(* WHOLE TOOL (analyzer, generator and file layout composed): the API object, its key orders, the stub data and the files
+   written into any initial tree are the same with warnings on and off; only the log differs *)
+Theorem C14_run_warn_pure : forall v nc fs0 w1 w2, artefacts (run (with_warn v w1) nc fs0) = artefacts (run (with_warn v w2) nc fs0).
+Proof. exact run_warn_pure. Qed.
 Print Assumptions C14_param_choice.
 Print Assumptions C14_param_warn_pure.
 Print Assumptions C14_param_warn_iff.
@@ -50,3 +55,4 @@ Print Assumptions C14_result_only_hint.
 Print Assumptions C14_result_code_preference_keeps_hints.
 Print Assumptions C14_result_warn_always_refuted.
 Print Assumptions C14_front_warn_pure.
+Print Assumptions C14_run_warn_pure.
